@@ -136,6 +136,8 @@ def gen_program(rng, pkg, n=None, p_explicit=0.15, p_hidden=0.12, min_memento=2,
             nd["wrap_param"] = "a"
         elif kind == "wrapped":
             nd["wrap_param"] = "a" if (nd["mod"] == "b" and rng.random() < 0.8) else rng.choice(WRAP_PARAMS)
+        if kind == "wrapped" and nd["const"] % 2 == 0:  # (no random draw) the decorator takes an argument
+            nd["deco_arg"] = nd["const"] + 1
         nodes.append(nd)
     # now and then one function uses two different module-level lambdas (they share a qualified name)
     if n >= 4 and rng.random() < p_lambda_pair:
@@ -162,6 +164,10 @@ def gen_program(rng, pkg, n=None, p_explicit=0.15, p_hidden=0.12, min_memento=2,
                 nodes[foll]["params"][1][1] = bump_typed(rng, nodes[foll]["params"][1][1])
             nodes[foll]["of"] = lead
             factory_pair = [lead, foll]
+            # (by the value of the pair's first default, no random draw: the products keep the factory's argument in a
+            # closure cell instead of a default value)
+            if len(dlit(nodes[lead]["params"][1][1])) % 2 == 0:
+                nodes[lead]["closure"] = True
     # now and then the last functions of the package live in its __init__.py ...
     init_chain = None
     if n >= 4 and rng.random() < p_init:
@@ -431,6 +437,9 @@ def render_factory(prog, i):
     nd = prog["nodes"][i]
     first = ("x %s %d" % (nd["op"], nd["const"])) if not nd["swap"] else ("%d %s x" % (nd["const"], nd["op"]))
     d = nd["params"][1][1]
+    if nd.get("closure"):  # the factory's argument lives on in a closure cell of the product
+        return "\n".join(["def mk_%s(k_):" % nd["name"], "    def made(x):", "        REC.hit('made_%s', x, k_)" % nd["name"],
+                          "        r = %s" % first, "        r += %s" % duse("k_", d), "        return r", "    return made", "", ""])
     return "\n".join(["def mk_%s(k_):" % nd["name"], "    def made(x, y=k_):", "        REC.hit('made_%s', x, y)" % nd["name"],
                       "        r = %s" % first, "        r += %s" % duse("y", d), "        return r", "    return made", "", ""])
 
@@ -461,9 +470,14 @@ def render_def(prog, i, skip_names=()):
         L.append("@m.memento_function" + ("(version=%r)" % nd["version"] if nd["version"] is not None else ""))
     elif nd["kind"] == "wrapped":
         wp = nd["wrap_param"]
-        L += ["def deco_%s(fn):" % nd["name"], "    @functools.wraps(fn)",
-              "    def wrapper(%s, *rest, **kw):" % wp, "        return fn(%s, *rest, **kw)" % wp, "    return wrapper", "",
-              "@deco_%s" % nd["name"]]
+        if nd.get("deco_arg") is not None:  # a decorator with an argument, which its wrapper closes over
+            L += ["def deco_%s(k_):" % nd["name"], "    def outer(fn):", "        @functools.wraps(fn)",
+                  "        def wrapper(%s, *rest, **kw):" % wp, "            return fn(%s, *rest, **kw) + k_" % wp,
+                  "        return wrapper", "    return outer", "", "@deco_%s(%d)" % (nd["name"], nd["deco_arg"])]
+        else:
+            L += ["def deco_%s(fn):" % nd["name"], "    @functools.wraps(fn)",
+                  "    def wrapper(%s, *rest, **kw):" % wp, "        return fn(%s, *rest, **kw)" % wp, "    return wrapper", "",
+                  "@deco_%s" % nd["name"]]
     if nd.get("prev"):  # (the earlier definition comes before the decorators of the current one)
         L[0:0] = ["def %s(x):" % nd["name"], "    REC.hit(%r, x)" % (nd["name"] + "_old"), "    return x * 2 + %d" % nd["prev"]["const"], "",
                   "%s_old = %s" % (nd["name"], nd["name"]), ""]
@@ -827,7 +841,7 @@ def apply_special(rng, prog, kind):
 
 EDIT_KINDS = ["const", "xconst", "tconst", "tperm", "builtin", "sconst", "nested_const", "op", "swap", "add_param", "default", "kwdefault",
               "add_call", "remove_call", "retarget_call", "retarget_alias", "var_value", "var_mutate", "version_bump",
-              "hidden_target", "prev_const", "guard_move"]
+              "hidden_target", "prev_const", "guard_move", "deco_arg"]
 
 
 def apply_edit(rng, prog, kind=None, force_var=None):
@@ -855,6 +869,11 @@ def apply_edit(rng, prog, kind=None, force_var=None):
         i = cand[0]
         nodes[i]["const"] += rng.randint(1, 5)
         return done(i)
+    if kind == "deco_arg":  # the argument of a helper's decorator
+        for i in cand:
+            if nodes[i].get("deco_arg") is not None:
+                nodes[i]["deco_arg"] += rng.randint(1, 5)
+                return done(i)
     if kind == "guard_move":  # the failing call moves out of / into the try block (same instructions, other protected range)
         for i in cand:
             if nodes[i].get("guard"):
